@@ -95,6 +95,15 @@ def faults(df, roots):
                 d[c] = d[c].astype(float)
                 d.loc[i, c] = d.loc[i, c] + 0.5
                 yield f"int-column-fractional:{c}", {"row": i}, d
+                d = df.copy()
+                d[c] = d[c].astype(float)
+                d.loc[i, c] = d.loc[i, c] + 0.0002
+                yield f"int-column-tiny-fraction:{c}", {"row": i}, d
+                if c not in ("p_id", *FOREIGN_KEYS) and not c.startswith("p_id_"):
+                    d = df.copy()
+                    d[c] = d[c].astype(float) * 100000.0 + 100000.0
+                    d.loc[i, c] = d.loc[i, c] + 0.4
+                    yield f"int-column-large-value-fraction:{c}", {"row": i}, d
                 for bad, nm in ((np.nan, "nan"), (np.inf, "inf")):
                     d = df.copy()
                     d[c] = d[c].astype(float)
@@ -105,6 +114,10 @@ def faults(df, roots):
                 d[c] = d[c].astype(float)
                 d.loc[i, c] = 0.5
                 yield f"bool-column-half:{c}", {"row": i}, d
+                d = df.copy()
+                d[c] = d[c].astype(float)
+                d.loc[i, c] = d.loc[i, c] + 1e-6
+                yield f"bool-column-tiny-fraction:{c}", {"row": i}, d
                 d = df.copy()
                 d[c] = d[c].astype(int)
                 d.loc[i, c] = 2
